@@ -4,8 +4,8 @@ C02, step 2: `detectRoute` on a candidate list against the decision table `Spec.
 If the candidates are — as a set — the routes of the service whose template admits the path, then
 stage by stage the model's filters and the table's filters keep the same routes (the header loops
 are the declarative tests by `ClassifyHeaders`), so emptiness, the method set of the 405 and the
-final stage agree; `Spec.bodyCoherent` identifies the model's two notions of "has a body" with
-`Spec.hasBody`.
+final stage agree; the model's one notion of "has a body" (`ContentLength ≠ 0`, since the repair of
+F04) is `Spec.hasBody`.
 -/
 import Restful.Lemmas.ClassifyHeaders
 import Restful.Lemmas.OrderPerm
@@ -35,29 +35,20 @@ theorem C02.isEmpty_congr {α : Type} {A B : List α} (h : ∀ x, x ∈ A ↔ x 
     | nil => exact absurd ((h a).1 List.mem_cons_self) (by simp)
     | cons b bs => rfl
 
-theorem Spec.hasBody_of_coherent {req : Req} (hb : Spec.bodyCoherent req = true) :
-    decide (req.contentLength > 0) = Spec.hasBody req ∧
-    (req.clenHeader.isEmpty || decide (req.clenHeader = ['0'])) = !Spec.hasBody req := by
-  unfold Spec.bodyCoherent at hb
+/-- the model's two tests "a body is sent" / "no body is sent" are `Spec.hasBody` and its negation -/
+theorem Spec.hasBody_model (req : Req) :
+    decide (req.contentLength ≠ 0) = Spec.hasBody req ∧
+    decide (req.contentLength = 0) = !Spec.hasBody req := by
   unfold Spec.hasBody
-  simp only [Bool.and_eq_true, decide_eq_true_eq, beq_iff_eq] at hb
-  obtain ⟨h0, h1⟩ := hb
-  have e : decide (req.contentLength > 0) = (req.contentLength != 0) := by
-    by_cases hz : req.contentLength = 0
-    · simp [hz]
-    · have : req.contentLength > 0 := by omega
-      simp [hz, this]
-  refine ⟨e, ?_⟩
-  rw [← e, h1, Bool.not_not, C02.decide_eq_beq]
+  by_cases hz : req.contentLength = 0 <;> simp [hz]
 
 theorem detect_classify (E : ReEnv) (k : RouterKind) (routes cands : List Route) (req : Req)
     (hmem : ∀ r, r ∈ cands ↔ r ∈ routes ∧ Spec.pathAdmits E k r req.path = true)
-    (hyg : ∀ r ∈ routes, (∀ c ∈ r.consumes, c ≠ []) ∧ (∀ p ∈ r.produces, p ≠ []))
-    (hb : Spec.bodyCoherent req = true) :
+    (hyg : ∀ r ∈ routes, (∀ c ∈ r.consumes, c ≠ []) ∧ (∀ p ∈ r.produces, p ≠ [])) :
     match detectRoute cands req with
     | .ok r => r ∈ cands ∧ ∃ ids, Spec.classifyIn E k routes req = .runs ids ∧ r.id ∈ ids
     | .error (c, a) => Spec.verdictMatches (Spec.classifyIn E k routes req) (.error c a) 0 = true := by
-  obtain ⟨hbody, hclen⟩ := Spec.hasBody_of_coherent hb
+  obtain ⟨hbody, hclen⟩ := Spec.hasBody_model req
   unfold detectRoute Spec.classifyIn
   simp only []
   have m1 : ∀ r, r ∈ List.filter (fun x => passesConds x req) cands ↔
